@@ -20,7 +20,8 @@ WATCHDOG_S = {'quick': 1200, 'thorough': 7200}
 
 def observe(text, charset):
     """values that are the text of a whole (invalid) composite necessarily contain the document's own component
-    separator: they are compared with that separator mapped to ':' and their echo in AK404/IK404 is not compared"""
+    separator: they are compared with that separator mapped to ':' and their echo in AK404/IK404 is not compared; the same
+    mapping applies to identifiers echoed in AK1/AK2/IK2 (an ST02 written as a composite)"""
     res = pipeline.validate(text, charset=charset)
     if res.exc is not None:
         return None, res
@@ -42,6 +43,9 @@ def observe(text, charset):
                 continue
             if s in ('AK4', 'IK4') and len(e) >= 4 and (e[3] in composite_values):
                 e = e[:3]
+            if s in ('AK1', 'AK2', 'IK2') and sub_t != ':':
+                # a control number / identifier written as a composite is echoed with the document's own component separator
+                e = [x.replace(sub_t, ':') if isinstance(x, str) else x for x in e]
             body.append((s, e))
         if composite_values:
             # an echo that holds ':' is left out of the acknowledgement altogether; compare such lines without AK404
